@@ -366,18 +366,18 @@ def run(tier, seed, replay=None):
                        if e["property"] == "C16" and e.get("deviation") in tiered.DEVIATIONS})
 
     # -- 3a. random real executions while TLC runs --------------------------
-    n_rand = 1350 if quick else 20000
+    n_rand = 1350 if quick else 15000
     for i in range(n_rand):
         cfg, prog, regime = random_case(rng, i)
         runs.execute(cfg, prog, f"random:{regime}")
 
-    for i in range(400 if quick else 8000):
+    for i in range(400 if quick else 6000):
         cfg, prog = soft.random_case(rng, i)
         soft_runs.execute(cfg, prog, "random")
-    for i in range(330 if quick else 8000):
+    for i in range(330 if quick else 6000):
         cfg, prog = tiered.random_case(rng, i)
         tier_runs.execute(cfg, prog, "random")
-    for i in range(240 if quick else 6000):
+    for i in range(240 if quick else 4000):
         cfg, prog = pagec.random_case(rng, i)
         pc_runs.execute(cfg, prog, "random")
     _t(chk, f"random executions done: {len(runs.traces)} + soft-ttl {len(soft_runs.traces)} + multi-tier "
